@@ -54,6 +54,8 @@ def _n(t, env, wide):
         inner = _n(t[2], env, wide)
         if t[3] in wide:
             return inner
+        if inner[0] == "int" and t[3] in BYTES and inner[1] >= 0:
+            return ("int", inner[1] & ((1 << (8 * BYTES[t[3]])) - 1))
         return ("trunc", t[3], inner)
     if k == "index":
         return ("idx", _n(t[1], env, wide), _n(t[2], env, wide))
